@@ -431,6 +431,7 @@ func solveUnit(vc *VC, opts SolveOpts) map[int]bool {
 			}
 		}
 	}
+	vc.premiseCheck(flags)
 	if opts.DumpDir != "" {
 		for _, i := range idx {
 			o := vc.obligs[i]
@@ -521,4 +522,87 @@ func firstLines(s string, n int) string {
 		lines = lines[:n]
 	}
 	return strings.Join(lines, " | ")
+}
+
+// antecedent returns A for a goal of the form (=> A B).
+func antecedent(goal Term) (Term, bool) {
+	if !strings.HasPrefix(goal, "(=> ") {
+		return "", false
+	}
+	rest := goal[4:]
+	if strings.HasPrefix(rest, "(") {
+		d := 0
+		for i := 0; i < len(rest); i++ {
+			switch rest[i] {
+			case '(':
+				d++
+			case ')':
+				d--
+				if d == 0 {
+					return rest[:i+1], true
+				}
+			}
+		}
+		return "", false
+	}
+	k := strings.Index(rest, " ")
+	if k < 0 {
+		return "", false
+	}
+	return rest[:k], true
+}
+
+// premiseCheck: a labelled ensures/assert clause of the form A ==> B whose premise
+// A is unsatisfiable at every place it is checked proves nothing (vacuous). For
+// each (kind, label) at least one instance must have a satisfiable premise.
+func (vc *VC) premiseCheck(flags map[int]bool) {
+	type grp struct {
+		obs   []*Oblig
+		alive bool
+	}
+	groups := map[string]*grp{}
+	var order []string
+	for _, o := range vc.obligs {
+		if o.Cand >= 0 || (o.Kind != "ensures" && o.Kind != "assert") || o.Label == "" {
+			continue
+		}
+		key := o.Kind + ":" + o.Label
+		g := groups[key]
+		if g == nil {
+			g = &grp{}
+			groups[key] = g
+			order = append(order, key)
+		}
+		if _, ok := antecedent(o.Goal); !ok {
+			g.alive = true // not an implication at this site: nothing to check
+		}
+		g.obs = append(g.obs, o)
+	}
+	var mu sync.Mutex
+	var wg sync.WaitGroup
+	for _, key := range order {
+		g := groups[key]
+		if g.alive {
+			continue
+		}
+		wg.Add(1)
+		go func(key string, g *grp) {
+			defer wg.Done()
+			for _, o := range g.obs {
+				a, _ := antecedent(o.Goal)
+				q := vc.preambleFor(flags, o, true) + fmt.Sprintf("(assert %s)\n(assert %s)\n(check-sat)\n", o.Guard, a)
+				solverSem <- struct{}{}
+				st, _, _, _ := rawQuery(solvers[0], q, 1500)
+				<-solverSem
+				if st != "unsat" {
+					return // premise reachable (or undecided): fine
+				}
+			}
+			mu.Lock()
+			vc.vacuous = append(vc.vacuous, key)
+			mu.Unlock()
+		}(key, g)
+	}
+	wg.Wait()
+	sort.Strings(vc.vacuous)
 }
